@@ -501,7 +501,7 @@ def __init__(self, outs=None, ends=None, fib=None, default_out=None):
     self.outs = outs
     self.default_out = default_out
     self.packets_recevied = 0
-    if ends:
+    if ends is not None:
         self.ends = ends
     else:
         self.ends = dict()
@@ -516,8 +516,9 @@ def fib(self, val):
     self._fib = val
 ''')
 
-spec('FIBDemux', 'put', what='a table is absent only when it is None; end device first; else outs[fib[flow]]; lookup '
-                            'failures go to the default output if any')('''
+spec('FIBDemux', 'put', what='a table is absent only when it is None; end device first; else the output the table names (a port '
+                            'number that names no output, negative ones included, is a lookup failure); lookup failures go to '
+                            'the default output if any; only the lookup is guarded, exactly one forward')('''
 def put(self, packet):
     if self._fib is None:
         raise ValueError()
@@ -529,10 +530,14 @@ def put(self, packet):
         try:
             if not self.outs:
                 raise IndexError()
-            self.outs[self._fib[flow_id]].put(packet)
+            port = self._fib[flow_id]
+            if port < 0:
+                raise IndexError()
+            out = self.outs[port]
         except (KeyError, IndexError, ValueError) as exc:
-            if self.default_out:
-                self.default_out.put(packet)
+            out = self.default_out
+        if out:
+            out.put(packet)
 ''')
 
 spec('SimplePacketSwitch', '__init__', what='nports FIFO ports in packet mode, a FlowDemux over exactly that list')('''
@@ -620,12 +625,14 @@ def __init__(self):
     self.out2 = None
 ''')
 
-spec('Splitter', 'put', what='original to the first output, a separate copy to the second')('''
+spec('Splitter', 'put', what='a copy of the packet as handed in is taken before the original goes to the first output; the copy goes to the second')('''
 def put(self, packet):
+    if self.out2:
+        dup = copy(packet)
     if self.out1:
         self.out1.put(packet)
     if self.out2:
-        self.out2.put(copy(packet))
+        self.out2.put(dup)
 ''')
 
 spec('NSplitter', '__init__')('''
@@ -638,13 +645,14 @@ def __init__(self, N):
         raise TypeError()
 ''')
 
-spec('NSplitter', 'put', what='original to the first output, a fresh copy per further output')('''
+spec('NSplitter', 'put', what='one fresh copy per further output, all taken before the original goes to the first output')('''
 def put(self, packet):
+    copies = [copy(packet) if out else None for out in self.outs[1:]]
     if self.outs[0]:
         self.outs[0].put(packet)
-    for out in self.outs[1:]:
+    for out, dup in zip(self.outs[1:], copies):
         if out:
-            out.put(copy(packet))
+            out.put(dup)
 ''')
 
 
